@@ -18,8 +18,9 @@
 (*    error is dropped (counted in `dropped`);                                    *)
 (*  - element errors raised while the cursor is an ISA/GS/ST node are stored in   *)
 (*    that node's `elements`; err_st.err_count ignores them;                      *)
-(*  - ele_error attaches the *last add_ele'd* element node, whatever segment it   *)
-(*    was created for (stale cursor);                                             *)
+(*  - ele_error attaches the *last add_ele'd* element node unless the caller     *)
+(*    names another position by reference designator (then a node without a       *)
+(*    data element number is made for that position);                             *)
 (*  - ack codes and group totals are frozen by close_*; int(GE01) may raise.      *)
 EXTENDS Naturals, Sequences, FiniteSets, TLC
 LOCAL Env == INSTANCE Envelope
@@ -30,6 +31,7 @@ Node(t, par, slot) == [t |-> t, par |-> par, slot |-> slot, errs |-> <<>>, marks
 TInit == [nodes |-> <<>>, isa |-> 0, gs |-> 0, st |-> 0,
           segk |-> "none", segi |-> 0, seg_added |-> FALSE, pseg |-> Node("seg", 0, "children"),
           ele_set |-> FALSE, elei |-> 0, ele_added |-> FALSE, pele |-> Node("ele", 0, "elements"),
+          segseq |-> 0, epar |-> <<"none", 0>>,      \* identity of the current segment object / of the parent the element cursor was made for
           crashed |-> FALSE, dropped |-> 0]
 
 Crash(t) == [t EXCEPT !.crashed = TRUE]
@@ -62,10 +64,12 @@ AddStLoop(t, c) == IF t.gs = 0 THEN Crash(t) ELSE
                    LET n == [Node("st", t.gs, "children") EXCEPT !.id = c.id, !.kind = c.kind, !.x = c.x, !.ack = "R"]
                        t1 == [t EXCEPT !.nodes = Append(@, n), !.st = Len(t.nodes) + 1] IN SetCursor(t1, "st", t1.st)
 AddSeg(t, c) == [t EXCEPT !.pseg = [Node("seg", t.st, "children") EXCEPT !.id = c.id, !.pos = c.pos, !.x = c.x],
-                          !.segk = "seg", !.segi = 0, !.seg_added = FALSE]
+                          !.segk = "seg", !.segi = 0, !.seg_added = FALSE, !.segseq = @ + 1]
+(* the node an element error node is created for: the ISA/GS/ST node the cursor stands on, else the current segment object *)
+EleParent(t) == CASE t.segk = "isa" -> <<"isa", t.isa>> [] t.segk = "gs" -> <<"gs", t.gs>> [] t.segk = "st" -> <<"st", t.st>> [] OTHER -> <<"seg", t.segseq>>
 AddEle(t, c) == IF t.segk = "none" THEN Crash(t) ELSE
                 [t EXCEPT !.pele = [Node("ele", 0, "elements") EXCEPT !.pos = c.pos, !.sub = c.sub, !.id = c.ref],
-                          !.ele_set = TRUE, !.ele_added = FALSE, !.elei = 0]
+                          !.ele_set = TRUE, !.ele_added = FALSE, !.elei = 0, !.epar = EleParent(t)]
 (* _add_cur_seg: raises (AttributeError) when there is no current set *)
 CanAddCurSeg(t) == t.seg_added \/ t.st # 0
 AddCurSeg(t) == IF t.seg_added THEN t
@@ -80,7 +84,14 @@ SegError(t, c) ==
   ELSE LET t1 == AddCurSeg(t) IN
        IF t1.segk # "seg" THEN [t1 EXCEPT !.dropped = @ + 1]                  \* None, or add_error of another arity: swallowed
        ELSE [t1 EXCEPT !.nodes[t1.segi].errs = Append(@, <<c.code, c.val>>)]
-EleError(t, c) ==
+(* an error located by its reference designator (c.rpos > 0) gets a node of its own when the element cursor stands elsewhere *)
+Relocate(t, c) ==
+  IF c.rpos > 0 /\ t.segk # "none" /\ (~t.ele_set \/ t.epar # EleParent(t) \/ <<t.pele.pos, t.pele.sub>> # <<c.rpos, c.rsub>>)
+  THEN [t EXCEPT !.pele = [Node("ele", 0, "elements") EXCEPT !.pos = c.rpos, !.sub = c.rsub], !.ele_set = TRUE, !.ele_added = FALSE, !.elei = 0,
+                 !.epar = EleParent(t)]
+  ELSE t
+EleError(t0, c) ==
+  LET t == Relocate(t0, c) IN
   IF ~CanAddCurSeg(t) \/ ~t.ele_set \/ t.segk = "none" THEN Crash(t)          \* not inside a try
   ELSE LET t1 == AddCurSeg(t)
            t2 == IF t1.ele_added THEN t1
